@@ -28,7 +28,7 @@ A_ONE = 'fn main() -> u8\n{\n\tprint!("hi\\n");\n\tvar r: u8 = 3;\n\treturn: r\n
 A_TWO = 'import "b.pn";\n\nfn main() -> u8\n{\n\tprint!("hi\\n");\n\tvar r: u8 = b_three();\n\treturn: r\n}\n'
 B_OK = "pub fn b_three() -> u8\n{\n\treturn: 3\n}\n"
 BAD = {"lex": "\tvar q: u8 = 1 @;\n", "sem": "\tvar q: u8 = nothing;\n"}
-PARAMS = ["sub", "verb", "color", "arrows", "wasm", "outdir", "flag", "env", "cfg", "bfail", "input", "nmods", "path"]
+PARAMS = ["sub", "implicit", "verb", "color", "arrows", "wasm", "outdir", "flag", "env", "cfg", "bfail", "input", "nmods", "path"]
 
 
 def canon(c):
@@ -68,7 +68,7 @@ def run_config(penne, root, idx, case):
         path = os.path.join(d, name)
         os.makedirs(os.path.dirname(path), exist_ok=True)
         open(path, "w").write(text)
-    args = [penne, c["sub"]]
+    args = [penne] + ([] if c["implicit"] else [c["sub"]])
     if c["verb"] == "silent":
         args.append("--silent")
     elif c["verb"] == "verbose":
